@@ -111,7 +111,7 @@ theorem PInv.modProcEx {w : World} {p : Pid} (hp : PInv (exAdd ex p) fr w) (f : 
     intro x; rcases hother x with h | ⟨_, h, _⟩
     · rw [h]
     · exact h
-  refine { ei := hp.ei, ap := ?_, ae := ?_, ar := ?_, fb := ?_, w1 := ?_, wn := ?_, e1 := ?_, en := hp.en,
+  refine { sb := hp.sb, ei := hp.ei, ap := ?_, ae := ?_, ar := ?_, fb := ?_, w1 := ?_, wn := ?_, e1 := ?_, en := hp.en,
            op := ?_, oe := ?_, up := hp.up, ue := hp.ue, oh := ?_, es := hp.es }
   · intro x; rcases hother x with h | ⟨_, _, _, h, _⟩
     · unfold procAw; rw [h]; exact hp.ap x
@@ -163,7 +163,7 @@ theorem PInv.shrinkWaiters {w : World} (hp : PInv ex fr w) (q : Pid) (g : List P
     intro x; unfold procAw; rw [(hpr x).1]
   have hea : ∀ x, evAw (w.modProc q fun y => { y with waiters := g y.waiters }) x = evAw w x := by
     intro x; unfold evAw; rw [(hpr x).1]
-  refine { ei := hp.ei, ap := fun x => by rw [hpa]; exact hp.ap x, ae := fun x => by rw [hea]; exact hp.ae x,
+  refine { sb := hp.sb, ei := hp.ei, ap := fun x => by rw [hpa]; exact hp.ap x, ae := fun x => by rw [hea]; exact hp.ae x,
            ar := fun x hx => by rw [hpa, hea]; rw [(hpr x).2.1] at hx; exact hp.ar x hx,
            fb := fun x hxx hx => by rw [hpa, hea]; rw [(hpr x).2.2.1] at hx; exact hp.fb x hxx hx,
            w1 := fun x y hy hxy => by rw [(hpr y).1]; exact hp.w1 x y ((hpr x).2.2.2.1 y hy) hxy,
